@@ -11,6 +11,8 @@ import Proofs.VdrReclaim
 import Proofs.VdrExample
 import Proofs.VdrTmp
 import Martian.VdrFs
+import Martian.VdrBuild
+import Proofs.VdrBuild
 
 namespace Props.C14
 open Martian.Vdr
@@ -152,7 +154,52 @@ theorem reclaim_needs_consistency :
     (run c s [.removeEmpty, .cacheMap, .nodeDone "C", .kill]).disk.map (·.path) = ["/p/files/a".toList] := by
   decide
 
+/-! ### `BK` is what the construction establishes -/
+
+/-- **built_bookkeeping_consistent.**  The tables `attachToFileParents` /
+`setupRetains` / `buildForks` give the forks of any node of a pipestance
+(model: `build (opsOf tr)`, compared with the real tables on every run)
+satisfy the bookkeeping invariant `BK`; a fork starting with them is fresh
+and not final.  (`wfOps`: decided by the driver for every pipestance built.) -/
+theorem built_bookkeeping_consistent (tr : PTree) (w : wfOps [] [] (opsOf tr) = true) (p : Node) (t : Tab)
+    (h : (p, t) ∈ build (opsOf tr)) (disk : List DiskEnt) :
+    BK (t.st disk) ∧ Fresh (t.st disk) ∧ (t.st disk).final = false ∧
+      (t.st disk).report.count = 0 ∧ (t.st disk).report.size = 0 :=
+  ⟨(build_bk w h).st disk, ⟨rfl, rfl⟩, rfl, rfl, rfl⟩
+
+/-- **reclaims_all_unreferenced_built.**  `reclaims_all_unreferenced` without
+the assumption `BK`: for a volatile fork that starts with the constructed
+tables, after any history in which its post nodes completed, the
+complete-state pass leaves only what the top level or a retain references. -/
+theorem reclaims_all_unreferenced_built (tr : PTree) (w : wfOps [] [] (opsOf tr) = true) (p : Node) (t : Tab)
+    (h : (p, t) ∈ build (opsOf tr)) (c : Cfg) (disk : List DiskEnt) (evs : List Ev)
+    (ok : CfgOK c (t.st disk)) (wf : DiskWF disk) (hv : c.volatile = true)
+    (hdone : ∀ q ∈ t.postNodes, q.1 ∈ (run c (t.st disk) evs).doneNodes) :
+    (run c (t.st disk) (evs ++ [.kill])).final = true ∧
+    ∀ d ∈ (run c (t.st disk) (evs ++ [.kill])).disk, isTmp d.kind = false →
+      ∃ a, Holds (t.st disk) a none ∧ refsN c a (d.path :: d.alts) = true :=
+  reclaims_all_unreferenced c (t.st disk) evs ok wf ⟨rfl, rfl⟩ ⟨rfl, rfl⟩ hv ((build_bk w h).st disk) rfl hdone
+
+/-- **clone_keeps_consistency.**  Dynamic fork expansion: the fork `cloneFork`
+makes of a consistent fork — at construction or after any history of the
+original — is consistent, fresh and not final. -/
+theorem clone_keeps_consistency (s : St) (disk : List DiskEnt) (k : BK s) :
+    BK (cloneFork s disk) ∧ Fresh (cloneFork s disk) ∧ (cloneFork s disk).final = false :=
+  ⟨cloneFork_bk k disk, ⟨rfl, rfl⟩, rfl⟩
+
+theorem clone_after_history_consistent (c : Cfg) (s0 : St) (evs : List Ev) (ok : CfgOK c s0)
+    (wf : DiskWF s0.disk) (fr : Fresh s0) (h0 : s0.report.count = 0 ∧ s0.report.size = 0)
+    (hv : c.volatile = true) (bk : BK s0) (hf : s0.final = false) (disk : List DiskEnt) :
+    BK (cloneFork (run c s0 evs) disk) := by
+  obtain ⟨_, r⟩ := joint_run ok wf hv (XInv.init s0 fr h0) (RInv.init c s0 fr bk hf) evs
+  exact cloneFork_bk r.bk disk
+
 /-! ### non-vacuity -/
+
+/-- the construction yields tables (for node `A` of `exTree`: one consumer, one retain) -/
+example : wfOps [] [] (opsOf exTree) = true ∧ ((build (opsOf exTree)).lookup "A").isSome = true := by
+  constructor <;> decide
+
 
 example :
     mergeEvents [⟨3000000000, -5⟩, ⟨1000000000, 7⟩, ⟨1000000500, 2⟩, ⟨3000000001, -1⟩] =
